@@ -260,8 +260,8 @@ PROPS = {
                      'hypothesis at every submit / tick / complete step of every sysdiff script (counts kernel_hyp_ok / kernel_hyp_not_met in the evidence distribution)',
                      'the database at boot has unique keys (KeysX; the empty database has: keysX_empty)'],
         trusted_base=['kernel composition IS mechanised (Proofs/Kernel.lean: delivery invariant over Sys.step; Proofs/KeysInv.lean + AllYieldsK.lean: key invariants over every command the coroutines emit; '
-                      'Proofs/Responds.lean: request coroutines always answer). Outside the theorem: Thread.run fuel (64 steps per thread and tick; exhausting it halts the model with "fuel", never observed) '
-                      'and everything the kernel model abstracts (goroutines, channels, real queues: stackrun / routesend exercise those)',
+                      'Proofs/Responds.lean: request coroutines always answer; Proofs/Productive.lean: the per-tick fuel of the model is never exhausted). Outside the theorem: '
+                      'everything the kernel model abstracts (goroutines, channels, real queues: stackrun / routesend exercise those)',
                       'translate/gofacts site inventory (Generated/Sites.lean, pinned): every util.Assert / panic site of the coroutine and kernel packages is listed; the model\'s `.panic` '
                       'leaves were written from that list by hand',
                       'front-end validation is not modelled: frontdiff ties it to ValidReq on the malformed pool only'],
